@@ -443,3 +443,48 @@ for _fn, _args, _first in (
         stubs=PROTO_STUBS, trace=OPT_TRACE,
         name=_fn, native=False,
     )
+
+
+# ---------------------------------------------------------------- the optimiser's set-up: the protocol's starting point
+# Every optimisation object (Flip, Alcoholic, Water, ...) edits the cell list and rotates side chains from its constructor
+# on; before the first one is built the pass has a fresh cell list holding every atom of the model, stored torsions, bond
+# lists and atom ranks that are up to date - the entry invariant of all the contracts above.
+def first_before(first, later):
+    ok = True
+    for a in calls_of(first):
+        for b in calls_of(later):
+            ok = ok and a.index < b.index
+    return ok
+
+
+for _fn in ("initialize_full_optimization", "initialize_wat_optimization"):
+    contract(
+        f"pdb2pqr.hydrogens:HydrogenRoutines.{_fn}", ["C14", "C04"],
+        params={"self": Obj("pdb2pqr.hydrogens:HydrogenRoutines", debumper=Named("deb", Obj("pdb2pqr.debump:Debump", cells=Const(None))),
+                            optlist=Items(), atomlist=Items(), resmap=DictOf(),
+                            biomolecule=Named("bm", Obj("pdb2pqr.biomolecule:Biomolecule", residues=Items(
+                                Named("rw", Obj("pdb2pqr.aa:WAT", name=Const("HOH"), fixed=Const(0))),
+                                Named("rs", Obj("pdb2pqr.aa:SER", name=Const("SER"), fixed=Const(0), stateboolean=DictOf()))))))},
+        requires=[],
+        ensures=[
+            "len(calls_of('Cells')) == 1 and deb.cells is calls_of('Cells')[0].ret and calls_of('Cells')[0].args['cellsize'] == 5",
+            "len(calls_of('assign_cells')) == 1 and calls_of('assign_cells')[0].args['self'] is deb.cells "
+            "and calls_of('assign_cells')[0].args['biomolecule'] is bm",
+            "len(calls_of('calculate_dihedral_angles')) == 1 and len(calls_of('set_reference_distance')) == 1 "
+            "and len(calls_of('update_internal_bonds')) == 1",
+            "first_before('assign_cells', 'Water') and first_before('set_reference_distance', 'Water') "
+            "and first_before('calculate_dihedral_angles', 'Water')",
+            "first_before('assign_cells', 'is_optimizeable')",
+            # every optimisation object is built on this pass's own debumper (and so on this cell list)
+            "forall(calls_of('Water'), lambda c: c.args['routines'] is deb)",
+            "len(self.optlist) == len(calls_of('Water'))",
+        ],
+        trace={"pdb2pqr.cells:Cells": Obj("pdb2pqr.cells:Cells"), "pdb2pqr.cells:Cells.assign_cells": None,
+               "pdb2pqr.biomolecule:Biomolecule.calculate_dihedral_angles": None,
+               "pdb2pqr.biomolecule:Biomolecule.set_donors_acceptors": None,
+               "pdb2pqr.biomolecule:Biomolecule.update_internal_bonds": None,
+               "pdb2pqr.biomolecule:Biomolecule.set_reference_distance": None,
+               "pdb2pqr.hydrogens:HydrogenRoutines.is_optimizeable": OneOf(Const(None), Obj("Opt", opttype=Const("Water"))),
+               "pdb2pqr.hydrogens.structures:Water": Obj("pdb2pqr.hydrogens.structures:Water", atomlist=Items())},
+        name=_fn, native=False,
+    )
